@@ -41,6 +41,21 @@ func (bc *BlockCtx) V2OK() bool { return bc.H >= bc.W.Net.HardforkV2.AllowHeight
 var Fee = types.Siacoins(1).Add(types.NewCurrency64(7))
 
 func v1Class(c int) bool { return c == AddrV1 || c == AddrV1b || c == AddrFnd }
+// V1FormNoSig forms a v1 contract whose unlock conditions require zero signatures (anyone can revise it).
+func V1FormNoSig(a, b, F uint64) Action {
+	return Action{fmt.Sprintf("v1form-nosig(a=%d,b=%d,F=%d)", a, b, F), func(bc *BlockCtx) bool {
+		n := len(bc.V1)
+		if !v1form(bc, bc.H+a, bc.H+a+b, F, -1) {
+			return false
+		}
+		t := &bc.V1[n]
+		t.FileContracts[0].UnlockHash = types.UnlockConditions{}.UnlockHash()
+		t.Signatures = nil
+		bc.W.SignV1Whole(t)
+		return true
+	}}
+}
+
 func v2Spendable(c int) bool {
 	return c == AddrV1 || c == AddrV1b || c == AddrFnd || c == AddrV2 || c == AddrV2b || c == AddrFndV2 || c == AddrACS
 }
@@ -102,6 +117,40 @@ func (bc *BlockCtx) addV2(name string, txns ...types.V2Transaction) {
 type Action struct {
 	Name string
 	Do   func(bc *BlockCtx) bool
+}
+
+// Seq combines actions into one (all or nothing): same-block interactions without raising the tuple bound K.
+func Seq(name string, acts ...Action) Action {
+	return Action{name, func(bc *BlockCtx) bool {
+		save := *bc
+		save.Used = map[types.Hash256]bool{}
+		for k, v := range bc.Used {
+			save.Used[k] = v
+		}
+		save.RevFC = map[types.FileContractID]types.FileContract{}
+		for k, v := range bc.RevFC {
+			save.RevFC[k] = v
+		}
+		save.RevV2FC = map[types.FileContractID]types.V2FileContract{}
+		for k, v := range bc.RevV2FC {
+			save.RevV2FC[k] = v
+		}
+		save.RevisedInBlock = map[types.Hash256]bool{}
+		for k, v := range bc.RevisedInBlock {
+			save.RevisedInBlock[k] = v
+		}
+		nonce := bc.W.Nonce
+		for _, a := range acts {
+			if !a.Do(bc) {
+				*bc = save
+				bc.W.Nonce = nonce
+				return false
+			}
+		}
+		// present the combination under one name
+		bc.Names = append(save.Names, name)
+		return true
+	}}
 }
 
 // ---------------- v1 actions ----------------
@@ -311,7 +360,7 @@ func V1Revise(kind string) Action {
 			rev.WindowStart++
 			rev.WindowEnd++
 		}
-		txn := types.Transaction{FileContractRevisions: []types.FileContractRevision{{ParentID: fce.ID, UnlockConditions: w.Keys.ContractUC(), FileContract: rev}}}
+		txn := types.Transaction{FileContractRevisions: []types.FileContractRevision{{ParentID: fce.ID, UnlockConditions: w.Keys.UCForHash(cur.UnlockHash), FileContract: rev}}}
 		w.SignV1Whole(&txn)
 		rev.Payout = cur.Payout
 		bc.RevFC[fce.ID] = rev
